@@ -136,12 +136,14 @@ def run_case(case) -> Outcome:  # noqa: C901, PLR0912, PLR0915
                     return True
                 obs["got"].append(item)
                 if fps:
-                    obs["cons_fps"].append(("between", K.fp()))
+                    obs["cons_fps"].append(("between", K.fp(), obs.get("base")))
                 if limit is not None:
                     limit -= 1
 
         async def consumer(stream, second_half=False):
             obs.setdefault("fp0", K.fp())
+            obs["base"] = K.fp()  # every consuming task is compared with its own view before it touched the stream
+            obs["fp0_last_consumer"] = obs["base"]
             try:
                 if mode == "close_unstarted":
                     await stream.aclose()
@@ -161,7 +163,7 @@ def run_case(case) -> Outcome:  # noqa: C901, PLR0912, PLR0915
                 if isinstance(exc, asyncio.CancelledError):
                     raise
                 obs["err"] = exc
-            obs["cons_fps"].append(("after", K.fp()))
+            obs["cons_fps"].append(("after", K.fp(), obs.get("base")))
 
         async def run_consumer(stream):
             if consume in ("same", "other_scope", "outside"):
@@ -171,6 +173,7 @@ def run_case(case) -> Outcome:  # noqa: C901, PLR0912, PLR0915
             else:  # split_tasks: first task takes one item, a second task the rest
                 async def first():
                     obs.setdefault("fp0", K.fp())
+                    obs["base"] = K.fp()
                     try:
                         await consume_items(stream, 1)
                     except BaseException as exc:  # noqa: BLE001
@@ -178,9 +181,15 @@ def run_case(case) -> Outcome:  # noqa: C901, PLR0912, PLR0915
 
                 await loop.create_task(first())
                 if obs["end"] is None and obs["err"] is None:
-                    await loop.create_task(consumer(stream))
+                    # the task that finishes the stream lives in yet another scope with its own state
+                    async def second():
+                        async with ctx.scope("Z", K.state("A", 3), K.state("B", 3)):
+                            await consumer(stream)
+                            obs["second_after"] = K.fp()
+
+                    await loop.create_task(second())
                 else:
-                    obs["cons_fps"].append(("after", K.fp()))
+                    obs["cons_fps"].append(("after", K.fp(), obs.get("base")))
 
         holder = {}
         if create_in == "XX":
@@ -279,17 +288,22 @@ def run_case(case) -> Outcome:  # noqa: C901, PLR0912, PLR0915
             out.violate("b", f"C11.b/generator-sees-wrong-state/{rel}/{consume}", f"probe {key}: {stt} expected {exp}")
             break
     # ---- (c) consumer context intact
-    fp0 = obs.get("fp0")
-    if fp0 is not None:
-        for when, fp in obs["cons_fps"]:
+    if obs.get("fp0") is not None:
+        for when, fp, fp0 in obs["cons_fps"]:
+            fp0 = fp0 or obs["fp0"]
             if fp["state"] != fp0["state"]:
                 where = "consumer-outside-any-scope" if fp0["state"].get("A") == "MissingContext" else "consumer-in-scope"
                 out.violate("c", f"C11.c/consumer-state-changed/{when}/{where}/{tag}", f"{fp0['state']} -> {fp['state']}")
                 break
-        for when, fp in obs["cons_fps"]:
+        for when, fp, fp0 in obs["cons_fps"]:
+            fp0 = fp0 or obs["fp0"]
             if fp["metrics"] != fp0["metrics"] or fp["group"] != fp0["group"]:
                 out.violate("c", f"C11.c/consumer-metrics-or-group-changed/{when}/{tag}", f"metrics {fp0['metrics']}->{fp['metrics']} group {fp0['group']}->{fp['group']}")
                 break
+    # the task that finished a stream started elsewhere must keep ITS OWN state afterwards
+    if obs.get("second_after") is not None and obs.get("fp0_last_consumer") is not None:
+        if obs["second_after"]["state"] != obs["fp0_last_consumer"]["state"]:
+            out.violate("c", f"C11.c/consumer-state-changed/after/finishing-task/{tag}", f"{obs['fp0_last_consumer']['state']} -> {obs['second_after']['state']}")
     # ---- (d) stream scope completed; nothing reported
     finished = [r for r in captured if "[gen]" in str(r.msg) and "finished" in str(r.msg)]
     started = [r for r in captured if "[gen]" in str(r.msg) and "Started" in str(r.msg)]
